@@ -203,6 +203,7 @@ func (s *scope) CreateScope(ctx context.Context) (Scope, error) {
 		return nil, fmt.Errorf("failed to create child scope: %w", err)
 	}
 
+	verifYield("scope.CreateScope:created")
 	// Track child
 	s.childrenMu.Lock()
 	if s.children == nil {
@@ -214,6 +215,7 @@ func (s *scope) CreateScope(ctx context.Context) (Scope, error) {
 	s.children[child] = struct{}{}
 	s.childrenMu.Unlock()
 
+	verifYield("scope.CreateScope:tracked-by-parent")
 	// Track in provider
 	s.rootProvider.scopesMu.Lock()
 	if s.rootProvider.scopes == nil {
@@ -232,6 +234,7 @@ func (s *scope) CreateScope(ctx context.Context) (Scope, error) {
 	}
 	s.rootProvider.scopesMu.Unlock()
 
+	verifYield("scope.CreateScope:tracked-by-provider")
 	// Auto-close on context cancellation
 	go func() {
 		<-ctx.Done()
@@ -255,6 +258,7 @@ func (s *scope) Close() error {
 		return nil
 	}
 	defer close(s.closed)
+	verifYield("scope.Close:flagged")
 
 	var errs []error
 
@@ -266,6 +270,7 @@ func (s *scope) Close() error {
 	}
 	s.children = nil
 	s.childrenMu.Unlock()
+	verifYield("scope.Close:children-detached")
 
 	for _, child := range children {
 		if err := child.Close(); err != nil {
@@ -273,6 +278,7 @@ func (s *scope) Close() error {
 		}
 	}
 
+	verifYield("scope.Close:children-closed")
 	// Cancel context. This happens after the children are closed: cancelling first would
 	// wake the context watchers of every child created without its own context, which then
 	// close those children concurrently with the loop above and swallow their disposal errors
@@ -280,11 +286,13 @@ func (s *scope) Close() error {
 		s.cancel()
 	}
 
+	verifYield("scope.Close:cancelled")
 	// Dispose all disposable scoped instances in reverse order
 	s.disposablesMu.Lock()
 	disposables := s.disposables
 	s.disposables = nil
 	s.disposablesMu.Unlock()
+	verifYield("scope.Close:drained")
 
 	for i := len(disposables) - 1; i >= 0; i-- {
 		if err := disposables[i].Close(); err != nil {
@@ -292,6 +300,7 @@ func (s *scope) Close() error {
 		}
 	}
 
+	verifYield("scope.Close:disposed-own")
 	// Remove from parent's children
 	if s.parentScope != nil {
 		s.parentScope.childrenMu.Lock()
@@ -299,6 +308,7 @@ func (s *scope) Close() error {
 		s.parentScope.childrenMu.Unlock()
 	}
 
+	verifYield("scope.Close:untracked-by-parent")
 	// Remove from provider's tracking
 	if s.rootProvider != nil {
 		s.rootProvider.scopesMu.Lock()
@@ -306,6 +316,7 @@ func (s *scope) Close() error {
 		s.rootProvider.scopesMu.Unlock()
 	}
 
+	verifYield("scope.Close:untracked-by-provider")
 	// Clear instances
 	s.instancesMu.Lock()
 	s.instances = nil
@@ -455,9 +466,11 @@ func (s *scope) resolve(key instanceKey, descriptor *Descriptor) (any, error) {
 			first := descriptor.siblings[0]
 			lockKey = instanceKey{Type: first.Type, Key: first.Key, Group: first.Group}
 		}
+		verifYield("scope.resolve:scoped-cache-miss")
 		lock := s.creationLock(lockKey)
 		lock.Lock()
 		defer lock.Unlock()
+		verifYield("scope.resolve:creation-lock-held")
 
 		if instance, ok := s.getInstance(key); ok {
 			return instance, nil
